@@ -315,6 +315,19 @@ namespace adapt
     {
         char d[S];
     };
+    struct ctor_failure
+    {
+    };
+    // value type whose constructor throws after the helper has obtained the memory
+    template <std::size_t S, std::size_t A>
+    struct alignas(A) tval
+    {
+        char d[S];
+        tval()
+        {
+            throw ctor_failure();
+        }
+    };
     struct vbase
     {
         virtual ~vbase() {}
@@ -340,6 +353,9 @@ namespace adapt
         TK_DEALLOC,      // allocator_deallocator<T, C>
         TK_DEALLOC_ARR,  // allocator_deallocator<T[], C>
         TK_DEALLOC_POLY, // allocator_polymorphic_deallocator<vbase, C>
+        TK_UNIQUE_THROW,     // allocate_unique<T>(c) where T's constructor throws
+        TK_UNIQUE_ANY_THROW, // allocate_unique<T>(any_allocator{}, c)    "
+        TK_SHARED_THROW,     // allocate_shared<T>(c)                      "
         TK_COUNT
     };
     inline const char* typed_kind_name(int k)
@@ -347,7 +363,7 @@ namespace adapt
         static const char* n[] = {"unique",      "unique_any", "unique_array", "unique_array_any",
                                   "poly",        "poly_any",   "shared",       "std_allocator",
                                   "std_any",     "deallocator", "deallocator_array",
-                                  "deallocator_poly"};
+                                  "deallocator_poly", "unique_throw", "unique_any_throw", "shared_throw"};
         return k >= 0 && k < TK_COUNT ? n[k] : "?";
     }
     inline bool typed_takes_count(int k)
@@ -369,6 +385,7 @@ namespace adapt
         std::string name, type;
         int         n_leaves = 0, n_trackers = 0, n_align = 0, n_seg = 0, depth = 0;
         bool        composable = false, has_null = false, stateless = false;
+        bool        root_aligned = false; // outermost adapter is aligned_allocator (its minimum is min_align(0))
         unsigned    tracker_mask[4] = {0, 0, 0, 0}; // leaf positions below tracker k
         std::size_t align_cap[4]    = {64, 64, 64, 64}; // max_alignment() of the allocator below aligned_allocator k
         std::size_t obj_size = 0, obj_align = 0;
@@ -598,6 +615,23 @@ namespace adapt
             pd(static_cast<vbase*>(static_cast<PT*>(m)));
         }
 
+        using TT = tval<S, A>;
+        static void unique_throw(void* o, std::size_t)
+        {
+            auto p = fm::allocate_unique<TT>(get(o));
+            p.reset();
+        }
+        static void unique_any_throw(void* o, std::size_t)
+        {
+            auto p = fm::allocate_unique<TT>(fm::any_allocator{}, get(o));
+            p.reset();
+        }
+        static void shared_throw(void* o, std::size_t)
+        {
+            auto p = fm::allocate_shared<TT>(get(o));
+            p.reset();
+        }
+
         // Mask: bit per typed_kind, decided by the generator (kinds that are ill-formed for C are left out)
         template <unsigned Mask>
         static void add(comp& c)
@@ -617,6 +651,12 @@ namespace adapt
             ADAPT_PUT(TK_DEALLOC, T, dealloc)
             ADAPT_PUT(TK_DEALLOC_ARR, T, dealloc_arr)
             ADAPT_PUT(TK_DEALLOC_POLY, PT, dealloc_poly)
+            if constexpr (S == 24 || S == 70000) // throwing constructors: two sizes are enough (compile time)
+            {
+                ADAPT_PUT(TK_UNIQUE_THROW, TT, unique_throw)
+                ADAPT_PUT(TK_UNIQUE_ANY_THROW, TT, unique_any_throw)
+                ADAPT_PUT(TK_SHARED_THROW, TT, shared_throw)
+            }
 #undef ADAPT_PUT
         }
     };
